@@ -286,4 +286,75 @@ def jsonEscape (bigU up : Bool) (cp : Nat) : List Nat :=
 /-- A unit the un-escaper copies through: not `"`, `\`, and not a raw `\n \t \r`. -/
 def isPlain (c : Nat) : Bool := c != 34 && c != 92 && c != 10 && c != 9 && c != 13
 
+/-! ## The token grammar the routine accepts (for whole-string statements)
+
+A string body is a sequence of tokens.  `Tok.ok` is what the *routine* requires of each token
+(it never looks at the two units between a high surrogate escape and the next four digits, and
+it does not require hex digits to be hex digits); RFC 8259 strings are a subset. -/
+
+/-- Unit emitted for a two-character escape `\e`, `none` when `e` is not one of `" \ / b t n f r`. -/
+def simpleOut (e : Nat) : Option Nat :=
+  if e = 34 ∨ e = 92 ∨ e = 47 then some e
+  else if e = 98 then some 8
+  else if e = 116 then some 9
+  else if e = 110 then some 10
+  else if e = 102 then some 12
+  else if e = 114 then some 13
+  else none
+
+/-- The code point the routine computes from a high-surrogate value and the second number. -/
+def pairCode (hi lo : Nat) : Nat :=
+  (((((hi ^^^ 0xD800) <<< 10) % 4294967296 + (lo &&& 0x3FF)) % 4294967296) + 0x10000) % 4294967296
+
+inductive Tok where
+  | plain (c : Nat)
+  | simple (e : Nat)
+  | u (e a b x d : Nat)
+  | pair (e a b x d y z a2 b2 x2 d2 : Nat)
+
+def Tok.src : Tok → List Nat
+  | .plain c => [c]
+  | .simple e => [92, e]
+  | .u e a b x d => [92, e, a, b, x, d]
+  | .pair e a b x d y z a2 b2 x2 d2 => [92, e, a, b, x, d, y, z, a2, b2, x2, d2]
+
+def Tok.ok : Tok → Bool
+  | .plain c => isPlain c
+  | .simple e => (simpleOut e).isSome
+  | .u e a b x d => (e == 85 || e == 117) && (hexFold [a, b, x, d] 0 &&& 0xFC00 != 0xD800)
+  | .pair e a b x d _ _ _ _ _ _ => (e == 85 || e == 117) && (hexFold [a, b, x, d] 0 &&& 0xFC00 == 0xD800)
+
+def Tok.isPlainTok : Tok → Bool
+  | .plain _ => true
+  | _ => false
+
+/-- What the token contributes to the un-escaped text. -/
+def Tok.out (w : Nat) : Tok → List Nat
+  | .plain c => [c]
+  | .simple e => (simpleOut e).toList
+  | .u _ a b x d => toUTF w (hexFold [a, b, x, d] 0)
+  | .pair _ a b x d _ _ a2 b2 x2 d2 => toUTF w (pairCode (hexFold [a, b, x, d] 0) (hexFold [a2, b2, x2, d2] 0))
+
+/-- An item of a text to be written as a JSON string body: a plain unit, or a scalar value
+written as a `\u` escape / surrogate pair (`bigU`, `up` choose `\U` and the hex case). -/
+inductive Item where
+  | unit (c : Nat)
+  | esc (cp : Nat) (bigU up : Bool)
+
+def Item.src : Item → List Nat
+  | .unit c => [c]
+  | .esc cp bigU up => jsonEscape bigU up cp
+
+def Item.out (w : Nat) : Item → List Nat
+  | .unit c => [c]
+  | .esc cp _ _ => toUTF w cp
+
+def Item.ok : Item → Prop
+  | .unit c => isPlain c = true
+  | .esc cp _ _ => isScalar cp
+
+def Item.isUnit : Item → Bool
+  | .unit _ => true
+  | _ => false
+
 end Qentem.Unicode
